@@ -7,14 +7,14 @@ open Py
 
 /-! ### association lists -/
 
-theorem lookup_cons_if {κ ν} [DecidableEq κ] (a k : κ) (b : ν) (es : List (κ × ν)) :
+theorem lookup_cons_if {κ ν} [BEq κ] [LawfulBEq κ] [DecidableEq κ] (a k : κ) (b : ν) (es : List (κ × ν)) :
     List.lookup a ((k, b) :: es) = if a = k then some b else List.lookup a es := by
   by_cases h : a = k
   · subst h; simp [List.lookup]
   · have : (a == k) = false := by simp [h]
     simp [List.lookup, this, h]
 
-theorem lookup_dictSet_self {κ ν} [DecidableEq κ] (d : List (κ × ν)) (k : κ) (v : ν) :
+theorem lookup_dictSet_self {κ ν} [BEq κ] [LawfulBEq κ] [DecidableEq κ] (d : List (κ × ν)) (k : κ) (v : ν) :
     (dictSet d k v).lookup k = some v := by
   induction d with
   | nil => simp [dictSet, lookup_cons_if]
@@ -25,7 +25,7 @@ theorem lookup_dictSet_self {κ ν} [DecidableEq κ] (d : List (κ × ν)) (k : 
     · simp [h, lookup_cons_if]
     · simp [h, lookup_cons_if, Ne.symm h, ih]
 
-theorem lookup_dictSet_ne {κ ν} [DecidableEq κ] (d : List (κ × ν)) (k k' : κ) (v : ν) (hne : k' ≠ k) :
+theorem lookup_dictSet_ne {κ ν} [BEq κ] [LawfulBEq κ] [DecidableEq κ] (d : List (κ × ν)) (k k' : κ) (v : ν) (hne : k' ≠ k) :
     (dictSet d k v).lookup k' = d.lookup k' := by
   induction d with
   | nil => simp [dictSet, lookup_cons_if, hne]
@@ -388,6 +388,103 @@ theorem doFindTypeByFields_spec {U : Universe} {t : Track} {s : State} (hI : Inv
   exact ⟨s2, by simp [pureFields, indexedClasses], hI2⟩
 
 
+/-- the requests collected by the cache-free walk only grow -/
+theorem serWalk_pure_mono (U : Universe) : ∀ (toks : List Tok) (us : List Use) (fs : List Frame)
+    (out : List Str), ∀ u ∈ us,
+    u ∈ (serWalk (σ := List Use) (fun us c p => (us ++ [(c, p)], pureBuild U c p)) toks us fs out).1 := by
+  intro toks
+  induction toks with
+  | nil => intro us fs out u hu; simpa [serWalk] using hu
+  | cons tk rest ih =>
+    intro us fs out u hu
+    cases tk with
+    | enter i c =>
+      cases fs with
+      | nil =>
+        simp only [serWalk]
+        cases hb : pureBuild U c none with
+        | error e => simp; exact Or.inl hu
+        | ok m => exact ih _ _ _ u (List.mem_append_left _ hu)
+      | cons f fs =>
+        simp only [serWalk]
+        cases hv : f.vars[i]? with
+        | none => simpa using hu
+        | some v =>
+          simp only
+          cases hb : pureBuild U c f.ns with
+          | error e => simp; exact Or.inl hu
+          | ok m => exact ih _ _ _ u (List.mem_append_left _ hu)
+    | leaf i =>
+      cases fs with
+      | nil => simp only [serWalk]; exact ih _ _ _ u hu
+      | cons f fs =>
+        simp only [serWalk]
+        cases hv : f.vars[i]? with
+        | none => simpa using hu
+        | some v => exact ih _ _ _ u hu
+    | leave => simp only [serWalk]; exact ih _ _ _ u hu
+
+/-- **the serializer's walk on a shared context simulates the cache-free walk** -/
+theorem serWalk_sim {U : Universe} {t : Track} (hc : consistent U t.uses) :
+    ∀ (toks : List Tok) (s : State) (us : List Use) (fs : List Frame) (out : List Str),
+      Inv U t s →
+      (∀ u ∈ (serWalk (σ := List Use) (fun us c p => (us ++ [(c, p)], pureBuild U c p)) toks us fs out).1,
+        u ∈ t.uses) →
+      (serWalk (fun s c p => doBuild U s c p) toks s fs out).2 =
+        (serWalk (σ := List Use) (fun us c p => (us ++ [(c, p)], pureBuild U c p)) toks us fs out).2 ∧
+      Inv U t (serWalk (fun s c p => doBuild U s c p) toks s fs out).1 := by
+  intro toks
+  induction toks with
+  | nil => intro s us fs out hI _; exact ⟨rfl, hI⟩
+  | cons tk rest ih =>
+    intro s us fs out hI hsub
+    cases tk with
+    | enter i c =>
+      cases fs with
+      | nil =>
+        simp only [serWalk] at hsub ⊢
+        have hmem : (c, none) ∈ t.uses := by
+          apply hsub
+          cases hb : pureBuild U c none with
+          | error e => simp
+          | ok m => exact serWalk_pure_mono U _ _ _ _ _ (by simp)
+        obtain ⟨s', hb', hI', _⟩ := doBuild_spec hI hc hmem
+        rw [hb']
+        cases hb : pureBuild U c none with
+        | error e => exact ⟨rfl, hI'⟩
+        | ok m =>
+          simp only [hb] at hsub
+          exact ih _ _ _ _ hI' hsub
+      | cons f fs =>
+        simp only [serWalk] at hsub ⊢
+        cases hv : f.vars[i]? with
+        | none => exact ⟨rfl, hI⟩
+        | some v =>
+          simp only [hv] at hsub ⊢
+          have hmem : (c, f.ns) ∈ t.uses := by
+            apply hsub
+            cases hb : pureBuild U c f.ns with
+            | error e => simp
+            | ok m => exact serWalk_pure_mono U _ _ _ _ _ (by simp)
+          obtain ⟨s', hb', hI', _⟩ := doBuild_spec hI hc hmem
+          rw [hb']
+          cases hb : pureBuild U c f.ns with
+          | error e => exact ⟨rfl, hI'⟩
+          | ok m =>
+            simp only [hb] at hsub
+            exact ih _ _ _ _ hI' hsub
+    | leaf i =>
+      cases fs with
+      | nil => simp only [serWalk] at hsub ⊢; exact ih _ _ _ _ hI hsub
+      | cons f fs =>
+        simp only [serWalk] at hsub ⊢
+        cases hv : f.vars[i]? with
+        | none => exact ⟨rfl, hI⟩
+        | some v =>
+          simp only [hv] at hsub ⊢
+          exact ih _ _ _ _ hI hsub
+    | leave => simp only [serWalk] at hsub ⊢; exact ih _ _ _ _ hI hsub
+
 /-- **One call refines the cache-free specification and keeps the invariant.** -/
 theorem step_spec {U : Universe} {t : Track} {s : State} (hI : Inv U t s) {w : World} {op : Op}
     (hok : okStep U t w op) :
@@ -442,6 +539,17 @@ theorem step_spec {U : Universe} {t : Track} {s : State} (hI : Inv U t s) {w : W
   | reset =>
     simp only [step, pureOut, Track.next]
     exact ⟨trivial, Inv.init U _⟩
+  | serialize toks =>
+    obtain ⟨h1, h2⟩ := serWalk_sim hc toks s [] [] [] hI1
+      (fun u hu => hus u (by simpa [opUses, serUses, pureSerialize] using hu))
+    simp only [step, pureOut, Track.next]
+    rw [if_neg (by simp)]
+    unfold Xs.Ctx.serialize pureSerialize
+    rw [← h1]
+    cases hr : (serWalk (fun s c p => doBuild U s c p) toks s [] []) with
+    | mk s' r =>
+      rw [hr] at h2
+      cases r <;> exact ⟨rfl, h2⟩
 
 /-- the invariant along a whole history -/
 theorem run_inv {U : Universe} : ∀ (h : List (World × Op)) (t : Track) (s : State),
